@@ -384,11 +384,47 @@ func c01EnumEscapes(size, shard, nshards int, emit func(c01Case)) {
 	}
 }
 
+// c01EnumDeep: a number (plain, or one the enforced variant must refuse) below n nested containers;
+// n crosses every power of two up to 4096 and their neighbours (recursion guards, fixed-size stacks).
+func c01EnumDeep(size, shard, nshards int, emit func(c01Case)) {
+	depths := []int{1, 2, 3, 7, 8, 9, 15, 16, 17, 31, 32, 33, 63, 64, 65, 66, 67, 100, 127, 128, 129, 255, 256, 257, 500, 1000}
+	if size > 1 {
+		depths = append(depths, 1023, 1024, 1025, 2047, 2048, 2049, 4096, 10000)
+	}
+	idx := 0
+	for _, d := range depths {
+		for _, leaf := range []string{"1", "-0", "1.5", "1e3", "9007199254740992", `"\u00e9"`, `{"b":1,"a":-0}`} {
+			for _, shape := range []string{"[", "{", "[{"} {
+				if idx%nshards == shard {
+					var open, close strings.Builder
+					for i := 0; i < d; i++ {
+						switch {
+						case shape == "[" || (shape == "[{" && i%2 == 0):
+							open.WriteString("[")
+							close.WriteString("]")
+						default:
+							open.WriteString(`{"k":`)
+							close.WriteString("}")
+						}
+					}
+					cl := []byte(close.String())
+					for i, j := 0, len(cl)-1; i < j; i, j = i+1, j-1 {
+						cl[i], cl[j] = cl[j], cl[i]
+					}
+					emit(c01Case{Text: vfBytes(open.String() + leaf + string(cl)), Versions: []string{"5", "6", "12", "org.matrix.msc3667"}})
+				}
+				idx++
+			}
+		}
+	}
+}
+
 func init() {
 	rule := "non-trivial = valid text whose bytes differ from its canonical form (unsorted keys, alternative escape spelling, whitespace, -0) or that contains a fraction/exponent/out-of-range number or that comes with a second presentation; or an invalid text within two byte edits of a valid one (must be rejected; the enumerated invalid texts are judged but not counted as non-trivial). distinct = distinct Case JSON."
 	vfRapid("C01/values", rule, 3000, 100000, 16, c01GenValue, c01Check)
 	vfRapid("C01/mutated", rule, 3000, 100000, 16, c01GenMutated, c01Check)
 	vfEnum("C01/escape-sweep", rule+" Enumerates every BMP scalar value (and a stride of astral ones) as \\uXXXX escape in key and value position, against its literal spelling.", 1, 2, 16, c01EnumEscapes, c01Check)
+	vfEnum("C01/deep-nesting", rule+" Enumerates 7 leaves (plain, -0, fraction, exponent, out-of-range, escaped string, unsorted object) below 1..1000 (thorough: ..10000) nested arrays / objects, for the plain and the enforced variants.", 1, 2, 8, c01EnumDeep, c01Check)
 	vfEnum("C01/short-texts", rule+" Enumerates every text up to the size bound over the alphabet `{}[]\"\\:,-01.eEu a` (17 symbols).", 4, 6, 16, c01EnumShort, c01Check)
 }
 
